@@ -61,7 +61,7 @@ def make_b(rnd):
         b.set_loop_outputs(t, r)
     h = b.hugr
     # mutation history on B: extra nodes, deletions, index reuse below an existing parent
-    for _ in range(rnd.randint(0, 4)):
+    for _ in range(rnd.randint(0, 5)):
         live = [n for n in h]
         c = rnd.random()
         if c < 0.4:
@@ -70,9 +70,14 @@ def make_b(rnd):
             leaves = [n for n in live if n != h.root and not h[n].children]
             if leaves:
                 h.delete_node(rnd.choice(leaves))
-        else:
+        elif c < 0.85:
             a, bb = rnd.choice(live), rnd.choice(live)
             h.add_link(a.out(rnd.choice([0, 0, 1])), bb.inp(rnd.choice([0, 1])))
+        else:
+            # parallel state-order links (multiplicity of order links): the raw link API does not de-duplicate
+            a, bb = rnd.choice(live), rnd.choice(live)
+            for _ in range(rnd.choice([1, 2, 3])):
+                h.add_link(a.out(-1), bb.inp(-1))
     return kind, b
 
 
